@@ -136,6 +136,9 @@ type Engine struct {
 	Client int
 	seq    atomic.Int64
 	dead   atomic.Bool
+	// DataBytesRead / DataGets count bytes actually read from, and opens of, data object files.
+	DataBytesRead atomic.Int64
+	DataGets      atomic.Int64
 }
 
 var _ storage.Engine = (*Engine)(nil)
@@ -217,10 +220,28 @@ func notExist(u *storage.URI) error { return fmt.Errorf("%s: %w", u, fs.ErrNotEx
 type reader struct {
 	*bytes.Reader
 	size int64
+	e    *Engine
+	data bool
 }
 
 func (r *reader) Close() error         { return nil }
 func (r *reader) Size() (int64, error) { return r.size, nil }
+
+func (r *reader) Read(p []byte) (int, error) {
+	n, err := r.Reader.Read(p)
+	if r.data {
+		r.e.DataBytesRead.Add(int64(n))
+	}
+	return n, err
+}
+
+func (r *reader) ReadAt(p []byte, off int64) (int, error) {
+	n, err := r.Reader.ReadAt(p, off)
+	if r.data {
+		r.e.DataBytesRead.Add(int64(n))
+	}
+	return n, err
+}
 
 func (e *Engine) isDir(path string) bool {
 	prefix := strings.TrimSuffix(path, "/") + "/"
@@ -245,7 +266,10 @@ func (e *Engine) Get(_ context.Context, u *storage.URI) (storage.Reader, error) 
 		return nil, notExist(u)
 	}
 	c := append([]byte(nil), b...)
-	return &reader{bytes.NewReader(c), int64(len(c))}, nil
+	if op.Class == "data" {
+		e.DataGets.Add(1)
+	}
+	return &reader{Reader: bytes.NewReader(c), size: int64(len(c)), e: e, data: op.Class == "data"}, nil
 }
 
 type putWriter struct {
